@@ -401,63 +401,99 @@ def p7_exact_comparisons(run: Run, w: World) -> None:
     fns = [s for s in mod.tree.body if isinstance(s, ast.FunctionDef) and s.name == "_eval_is_ge"]
     if not fns:
         raise AnalysisError("C02/P7: quantities._eval_is_ge not found")
+    # every dispatch overload of _eval_is_ge is EVALUATED (sa/gate.py) on quantities of equal / different dimension and zero / infinite value: the guard may be
+    # written inline, through a helper, as guard clauses - what counts is which inputs end in a raise and what is compared otherwise
+    from ..gate import GateReader, Dim, Fac, Obj, MagnitudeUse, quantity as _quantity
+    from ..pyreader import Raised
+    from ..alg import T as _T, num as _num
+    L_, T_ = Dim.of(length=1), Dim.of(time=1)
+
+    class _GeReader(GateReader):
+
+        def hook_call(self, n, env, fns_):
+            f_ = dotted(n.func) or ""
+            name = f_.split(".")[-1]
+            if name == "float" and len(n.args) == 1:
+                v = self.ev(n.args[0], env, fns_)
+                if isinstance(v, (Fac, _T, int)) and not isinstance(v, bool):
+                    return ("value", v)  # the number itself: float() of an exact value changes nothing the comparison could see
+            if f_ in ("SI.get_dimension_system", "dimsys_SI"):
+                return ("dimsys", )
+            return super().hook_call(n, env, fns_)
+
+        def hook_compare(self, o, l, r, n):
+            def tok(x):
+                return isinstance(x, tuple) and len(x) == 2 and x[0] in ("value", "arithmetic-on-the-value")
+            if all(isinstance(x, tuple) and len(x) == 2 and x[0] == "value" for x in (l, r)):
+                return (type(o).__name__, l[1], r[1])
+            if tok(l) or tok(r):
+                return (type(o).__name__, l, r)  # a comparison of something computed from the values: not the exact comparison
+            return super().hook_compare(o, l, r, n)
+
+        def hook_binop(self, o, l, r, n):
+            if any(isinstance(x, tuple) and len(x) == 2 and x[0] == "value" for x in (l, r)):
+                return ("arithmetic-on-the-value", norm(n, 60))
+            return super().hook_binop(o, l, r, n)
+
     for fdef in fns:
-        f = Fn(w, QMOD, "_eval_is_ge", inline=True, node=fdef)
-        # the overload's dispatch signature: which parameters are quantities (every parameter when the function is not dispatched)
         sig = next(([dotted(a_) or "" for a_ in d.args] for d in fdef.decorator_list if isinstance(d, ast.Call) and (dotted(d.func) or "").split(".")[-1] == "dispatch"), None)
         pnames = [p_.arg for p_ in fdef.args.posonlyargs + fdef.args.args]
-        qparams = {p_ for p_, t_ in zip(pnames, sig or [])  if t_.split(".")[-1] in ("Quantity", "SymQuantity")} if sig else set(pnames)
-        if not qparams:
+        if len(pnames) != 2:
+            raise AnalysisError("C02/P7: _eval_is_ge with other than two parameters")
+        is_q = [(t_.split(".")[-1] in ("Quantity", "SymQuantity")) for t_ in sig] if sig else [True, True]
+        if not any(is_q):
             continue
-        tag = "" if qparams == set(pnames) else ":" + ",".join(t_.split(".")[-1] for t_ in sig)
-        # quantities of inequivalent dimensions must not be ordered at all (otherwise SymPy folds Max(3 m, 2 s) to 3 m before the
-        # constructor sees the mismatch): every verdict is dominated by a dimension-equivalence guard that raises
-        guards = []
-        for t in [n for n in f.cfg.stmt_nodes() if n.kind == "test" and isinstance(n.ast, ast.If)]:
-            calls = {c.func.attr if isinstance(c.func, ast.Attribute) else (dotted(c.func) or "") for c in ast.walk(t.ast.test) if isinstance(c, ast.Call)}
-            body = t.ast.body
-            if "equivalent_dims" in calls and len(body) == 1 and isinstance(body[0], ast.Raise) and len(qparams) > 1:
-                sl = f.slice(t, t.ast.test)
-                if qparams <= sl.params and "dimension" in sl.attr_names:
-                    guards.append(t)
-            elif len(qparams) == 1 and len(body) == 1 and isinstance(body[0], ast.Raise):
-                # a quantity against a bare number: the number is dimensionless, so the guard has to refuse a dimensional quantity
-                sl = f.slice(t, t.ast.test)
-                if qparams <= sl.params and "dimension" in sl.attr_names and (calls & {"is_dimensionless", "equivalent_dims"}):
-                    guards.append(t)
-            elif "equivalent_dims" in calls and len(body) == 1 and isinstance(body[0], ast.Return) and isinstance(body[0].value, ast.Constant) and body[0].value.value is None:
-                run.ob("P7", "_eval_is_ge:guard-refuses")
-                run.violate("P7", f"{QMOD}:_eval_is_ge:guard-returns-none", f.mod, body[0],
-                            "for quantities of inequivalent dimensions _eval_is_ge returns None: to SymPy that only means 'no opinion', it then decides the relation from the "
-                            "signs of the operands - Max(1 m, -3 s) evaluates to 1 m before the constructor can see the mismatch. The guard has to raise")
-                guards.append(t)
-        for r in f.cfg.returns():
-            v = r.ast.value
-            if isinstance(v, ast.Constant) and v.value is None:
+        tag = "" if all(is_q) else ":" + ",".join(t_.split(".")[-1] for t_ in sig)
+
+        def operand(i, dim, kind):
+            return _quantity(f"{'lhs' if i == 0 else 'rhs'}", dim, kind) if is_q[i] else _num(5)
+
+        # (dimension of lhs, dimension of rhs, value kinds, must refuse?)  None = either is fine (a zero / infinite value matches any dimension)
+        table = [(L_, L_, "finite", "finite", False), (Dim(), Dim(), "finite", "finite", False)]
+        if all(is_q):
+            table += [(L_, T_, "finite", "finite", True), (L_, Dim(), "finite", "finite", True), (L_, T_, "zero", "finite", None), (L_, T_, "finite", "inf", None)]
+        else:
+            qi = is_q.index(True)
+            table = [(Dim(), Dim(), "finite", "finite", False), (L_, L_, "finite", "finite", True), (L_, L_, "zero", "zero", None)]
+        for dl, dr, kl, kr, refuse in table:
+            lhs_, rhs_ = operand(0, dl, kl), operand(1, dr, kr)
+            label = f"{dl!r}[{kl}] >= {dr!r}[{kr}]" if all(is_q) else f"{'quantity' if is_q[0] else 'number'} >= {'quantity' if is_q[1] else 'number'}, quantity of dimension {dl!r}[{kl}]"
+            run.ob("P7", f"_eval_is_ge{tag}:{label}")
+            rd = _GeReader(mod.tree, "quantities.py", depth_limit=8)
+            try:
+                got = rd.call_def(fdef, [lhs_, rhs_], {}, {})
+                raised = None
+            except Raised as r_:
+                got, raised = None, r_
+            except MagnitudeUse as mu:
+                run.violate("P7", f"{QMOD}:_eval_is_ge", mod, mu.node, f"`lhs >= rhs` on quantities: {mu.what} in `{norm(mu.node, 60)}`; anything but the exact comparison "
+                            f"scale_factor(lhs) >= scale_factor(rhs) makes the branch of a piecewise law depend on the magnitude / unit prefix of the arguments")
+                break
+            if refuse is True and raised is None:
+                if got is None:
+                    run.violate("P7", f"{QMOD}:_eval_is_ge:guard-returns-none", mod, fdef,
+                                "for quantities of inequivalent dimensions _eval_is_ge returns None: to SymPy that only means 'no opinion', it then decides the relation from the "
+                                "signs of the operands - Max(1 m, -3 s) evaluates to 1 m before the constructor can see the mismatch. The guard has to raise")
+                else:
+                    run.violate("P7", f"{QMOD}:_eval_is_ge:dimension-guard{tag}", mod, fdef,
+                                ("quantities are ordered without a dimension-equivalence guard: Max/Min/Piecewise over quantities of different dimensions are silently decided by "
+                                 "their scale factors (Quantity(Max(3 m, 2 s)) is accepted)") if all(is_q) else
+                                (f"the overload {tag[1:]} orders a quantity against a bare number by its scale factor without refusing a dimensional quantity: SymPy folds "
+                                 f"Max(3 m, 5) to a dimensionless 5 before the collector can see the mismatch, and Max(3 m, 2.5, 1 s) is bridged by the number"))
+                break
+            if raised is not None:
+                if refuse is False:
+                    run.violate("P7", f"{QMOD}:_eval_is_ge:refuses-comparable{tag}", mod, fdef, f"_eval_is_ge raises {raised.exc} for operands of one dimension ({label})")
+                    break
                 continue
-            run.ob("P7", "_eval_is_ge:dimension-guard")
-            if not f.cfg.dominated_by(r, lambda y: y in guards):
-                run.violate("P7", f"{QMOD}:_eval_is_ge:dimension-guard{tag}", f.mod, r.ast,
-                            ("quantities are ordered without a dimension-equivalence guard: Max/Min/Piecewise over quantities of different dimensions are silently decided by "
-                             "their scale factors (Quantity(Max(3 m, 2 s)) is accepted)") if len(qparams) > 1 else
-                            (f"the overload {tag[1:]} orders a quantity against a bare number by its scale factor without refusing a dimensional quantity: SymPy folds "
-                             f"Max(3 m, 5) to a dimensionless 5 before the collector can see the mismatch, and Max(3 m, 2.5, 1 s) is bridged by the number"))
-        for r in f.cfg.returns():
-            if isinstance(r.ast.value, ast.Constant) and r.ast.value.value is None:
-                continue
-            run.ob("P7", "_eval_is_ge")
-            v = r.ast.value
-            v = v if not (isinstance(v, ast.Name)) else next((d.ast.value for d in f.cfg.reaching().get(r, {}).get(v.id, []) if isinstance(d.ast, ast.Assign)), v)
-            ok = isinstance(v, ast.Compare) and len(v.ops) == 1 and isinstance(v.ops[0], ast.GtE)
-            if ok:
-                sl, sr = f.slice(r, v.left), f.slice(r, v.comparators[0])
-                ok = sl.params == {"lhs"} and sr.params == {"rhs"} and not numeric_consts(sl) and not numeric_consts(sr) \
-                    and all(c.split(".")[-1] in ("scale_factor", "float") for c in sl.calls | sr.calls) \
-                    and ("lhs" not in qparams or "scale_factor" in sl.calls | sl.attr_names) and ("rhs" not in qparams or "scale_factor" in sr.calls | sr.attr_names)
-            if not ok:
-                run.violate("P7", f"{QMOD}:_eval_is_ge", f.mod, r.ast,
-                            f"`lhs >= rhs` on quantities is decided by `{norm(r.ast.value, 80)}`; anything but the exact comparison scale_factor(lhs) >= scale_factor(rhs) makes the "
+            lv = lhs_.attrs["scale_factor"] if isinstance(lhs_, Obj) else lhs_
+            rv = rhs_.attrs["scale_factor"] if isinstance(rhs_, Obj) else rhs_
+            exact = isinstance(got, tuple) and len(got) == 3 and got[0] == "GtE" and got[1] is lv and got[2] is rv
+            if not exact:
+                run.violate("P7", f"{QMOD}:_eval_is_ge", mod, fdef,
+                            f"`lhs >= rhs` on quantities ({label}) is decided by {got!r}; anything but the exact comparison scale_factor(lhs) >= scale_factor(rhs) makes the "
                             f"branch of a piecewise law depend on the magnitude / unit prefix of the arguments")
+                break
     g = Fn(w, QMOD, "Quantity._eval_is_positive")
     for r in g.cfg.returns():
         conds_try = [x for x in ast.walk(g.fn) if isinstance(x, ast.Try)]
